@@ -106,6 +106,7 @@ class Engine:
         self.user_havoc = None  # hook(st) -> [st] applied when user code runs
         self.raising_attr_tags = set()  # Opaque tags whose attribute reads may raise anything
         self.inline_depth = 0
+        self.auto_inline = True
         self.max_inline = 3
         self.prune = True
         self._memo_truth = {}
@@ -289,6 +290,15 @@ class Engine:
 
         if name in BUILTINS:
             return BUILTINS[name]
+        if self.module is not None and self.auto_inline:
+            # a helper defined at module level of the file under proof and without own contract: inlined (depth-limited),
+            # so that harmless "extract helper" refactors do not orphan a proof
+            try:
+                node = self.module._find_in(self.module.tree.body, name, (ast.FunctionDef,))
+            except Exception:
+                node = None
+            if node is not None:
+                return Fn(name, node=node, closure={})
         from .values import EXC_PARENT
 
         if name in EXC_PARENT:
